@@ -350,6 +350,7 @@ def run_shard(args):
     rng = random.Random(args["seed"])
     base = common.mkscratch("c16")
     w = W.World(base, fe_kind=args["fe"], prefix=args.get("prefix", "/"), seed=args["seed"], autocreate="defaults")
+    w.res = res
     try:
         w.start()
         cfg = {k: args[k] for k in ("fe", "prefix", "seed", "names")}
